@@ -21,8 +21,18 @@ Oracles
  (c) persistent error: a raised TagCommandError carries the reason code of the
      injected kind (TIMEOUT_ERROR / RECEIVE_ERROR / PROTOCOL_ERROR)
  (e) no command is attempted more often than the budget in a row
+
+History legs (felica_hist_enum, felica_hist): several operations on ONE FeliCa
+Lite / Lite-S tag object (authenticate with the right / a wrong key, NDEF
+read / re-read / write, read_with_mac, plain and MAC'd block writes, presence
+check) with one error burst at a command position of one of them.  The tag
+object carries session state from one operation to the next, so oracle (a)
+is applied to the faulted operation AND to every later one; (b) compares the
+whole history with its fault-free run; an authenticate that starts after the
+burst must give the result the tag's key dictates.
 """
 import contextlib
+import functools
 import io
 
 from hypothesis import strategies as st
@@ -31,10 +41,11 @@ import nfc.tag
 import nfc.tag.tt1
 import nfc.tag.tt2
 import nfc.tag.tt3
+import nfc.tag.tt3_sony
 import nfc.tag.tt4
 
-from vlib import isodep_card, simfelica, simntag, tagdev, vsched
-from vlib.engine import Leg, Violation, unexpected
+from vlib import isodep_card, ref_felica, simfelica, simntag, tagdev, vsched
+from vlib.engine import HarnessError, Leg, Violation, unexpected
 from props import tagcommon as tc
 
 PROPERTY = "C16"
@@ -46,6 +57,10 @@ ASSUMPTIONS = [
     "FeliCa Lite-S MAC'd writes with 'response lost' are not idempotent (WCNT "
     "advanced): a TagCommandError is accepted there",
     "simulators as in C01 / C20",
+    "history legs (felica_hist*): the tag holds the key of the password used, "
+    "protect() is not part of the histories (what a CK write does to a running "
+    "session is an approximation in the simulator); the fault-free run of the "
+    "same history is the reference for bursts below the retry budget",
 ]
 
 ERRNO = {"timeout": nfc.tag.TIMEOUT_ERROR, "transmission": nfc.tag.RECEIVE_ERROR,
@@ -57,6 +72,17 @@ PHASES = ("cmd", "rsp")
 
 def setup():
     vsched.patch_nfc()
+    # The history legs repeat the same seeded challenges thousands of times
+    # and pyDes needs ~0.4 ms per DES block: memoise the simulator's pure
+    # single block 3DES (vlib.ref_felica.ede2_encrypt) inside this process.
+    # The code under test is not touched.
+    if not getattr(ref_felica.ede2_encrypt, "memoised", False):
+        cached = functools.lru_cache(maxsize=1 << 16)(ref_felica.ede2_encrypt)
+
+        def ede2_encrypt(k1, k2, block):
+            return cached(bytes(k1), bytes(k2), bytes(block))
+        ede2_encrypt.memoised = True
+        ref_felica.ede2_encrypt = ede2_encrypt
 
 
 def quiet(fn, *a, **kw):
@@ -454,6 +480,321 @@ def gen_case(tier):
     return s()
 
 
+# ------------------------------------------- FeliCa Lite / Lite-S histories
+# Several operations on ONE tag object, an error burst at a generated command
+# position of one of them.  The tag object carries session state
+# (authentication status, session key, the read/write method bound to the
+# NDEF services, the cached NDEF object), so what an operation does after an
+# earlier one failed is part of "every operation of a tag object".
+HWRONG = PW[0:15] + b"F"          # differs from PW in a non-parity key bit
+HMSG = tc.message(10, 3)     # short: pyDes makes every MAC'd block costly
+HIST_OPS = ("auth", "auth-wrong", "ndef", "changed", "write", "write-long",
+            "rmac", "rplain", "wplain", "wmac", "present")
+
+
+def hist_attr(ln, nmaxb=13, rw=1):
+    a = bytearray(16)
+    a[0:5] = bytes([0x10, 4, 1, nmaxb >> 8, nmaxb & 255])
+    a[10] = rw
+    a[11:14] = ln.to_bytes(3, "big")
+    a[14:16] = sum(a[0:14]).to_bytes(2, "big")
+    return bytes(a)
+
+
+def hist_sim(prod):
+    data = HMSG + bytes(-len(HMSG) % 16)
+    user = {0: hist_attr(len(HMSG))}
+    for i in range(len(data) // 16):
+        user[1 + i] = data[16 * i:16 * i + 16]
+    return simfelica.make(prod, key=PW, ndef=True, user=user)
+
+
+def hist_op(tag, op, state):
+    """one step of a history -> comparable result.  Only documented use:
+    octets are assigned to a writeable NDEF area only, RuntimeError is the
+    documented answer of the MAC methods on a never authenticated object."""
+    if op in ("auth", "auth-wrong"):
+        r = tag.authenticate(PW if op == "auth" else HWRONG)
+        if r is True:
+            state["authed"] = True
+        return r
+    if op == "ndef":
+        n = tag.ndef
+        return None if n is None else bytes(n.octets)
+    if op == "changed":
+        n = tag.ndef
+        if n is not None:
+            n.has_changed               # complete update from the tag
+            n = tag.ndef                # "always verify tag.ndef afterwards"
+        return None if n is None else bytes(n.octets)
+    if op in ("write", "write-long"):
+        n = tag.ndef
+        if n is None:
+            return "no-ndef"
+        if not n.is_writeable:
+            return "read-only"
+        n.octets = tc.message(min(12 if op == "write" else 40, n.capacity),
+                              9 if op == "write" else 11)
+        return "written"
+    if op == "rplain":
+        return bytes(tag.read_without_mac(3, 0x82))
+    if op == "wplain" or (op == "wmac" and not hasattr(tag, "write_with_mac")):
+        return tag.write_without_mac(bytearray(b"plain write 0123"), 12)
+    if op == "present":
+        return tag.is_present
+    try:
+        if op == "rmac":
+            d = tag.read_with_mac(1, 2)
+            return None if d is None else bytes(d)
+        if op == "wmac":
+            return tag.write_with_mac(bytearray(b"write with mac 0"), 11)
+    except RuntimeError:
+        if state["authed"]:
+            raise
+        return "authentication-required"
+    raise ValueError(op)
+
+
+_hist_ref = {}
+
+
+def run_history(prod, ops, fault):
+    """fault = None | (k, kind, burst, phase), k counts the exchanges of the
+    whole history from 0.  The fault-free run is memoised (it is a pure
+    function of prod and ops)."""
+    key = (prod, tuple(ops))
+    if fault is None and key in _hist_ref:
+        return _hist_ref[key]
+    sim = hist_sim(prod)
+    vsched.seed_urandom(7)
+    try:
+        clf, tag = tagdev.activate(sim)
+        if not isinstance(tag, nfc.tag.tt3_sony.FelicaLite):
+            raise Violation("activation-failed", "%s -> %r" % (prod, tag))
+        dev = clf.device
+        base = dev.exchanges
+        if fault is not None:
+            k, kind, burst, phase = fault
+            dev.script = _Script(base + 1 + k, base + 1 + k +
+                                 (burst if burst else 100000), kind, phase)
+        state = {"authed": False}
+        outs, spans = [], []
+        for op in ops:
+            first = dev.exchanges - base
+            try:
+                o = ("ok", hist_op(tag, op, state))
+            except nfc.tag.TagCommandError as e:
+                o = ("tce", e.errno, e)
+            except Exception as e:
+                o = ("other", e)
+            outs.append(o)
+            spans.append((first, dev.exchanges - base))
+    finally:
+        vsched.seed_urandom(None)
+    h = Fx()
+    h.outs, h.spans, h.xlog = outs, spans, dev.xlog[base:]
+    h.mem = b"".join(bytes(sim.mem[n]) for n in sorted(sim.mem))
+    h.authed = bool(tag.is_authenticated)
+    if fault is None:
+        if len(_hist_ref) > 512:
+            _hist_ref.clear()
+        _hist_ref[key] = h
+    return h
+
+
+def _is_mac_write(cmd):
+    return bool(cmd) and len(cmd) > 14 and cmd[1] == 0x08 and cmd[13] == 2
+
+
+def _answered_seq(xlog):
+    """answered commands in order; the MAC_A block of a Lite-S write with MAC
+    depends on the write counter and is left out of the comparison"""
+    return [cmd[:-16] if _is_mac_write(cmd) else cmd for cmd in answered(xlog)]
+
+
+def _plain(o):
+    return o[0:2]
+
+
+def check_history(case, ctx):
+    prod, ops = case["prod"], list(case["ops"])
+    ref = run_history(prod, ops, None)
+    for op, o in zip(ops, ref.outs):
+        if o[0] == "other":
+            ctx.set_class("hist/%s/%s" % (prod, op))
+            raise unexpected(o[1], "fault-free-op-raises",
+                             detail="history %r" % (ops,))
+    if case.get("fault") is None:
+        ctx.label("hist:fault-free")
+        return
+    j, p, kind, burst, phase = case["fault"]
+    # the faulted operation: the first one from j on (cyclic) that exchanges
+    # commands in the fault-free run
+    order = [(j + i) % len(ops) for i in range(len(ops))]
+    order = [i for i in order if ref.spans[i][1] > ref.spans[i][0]]
+    if not order:
+        ctx.label("hist:no-exchange")
+        return
+    j = order[0]
+    a, b = ref.spans[j]
+    if case.get("pmod"):
+        p = p % (b - a)
+    if p >= b - a:
+        ctx.label("hist:fault-beyond-operation")
+        return
+    k = a + p
+    target = ref.xlog[k][1]
+    ctx.label("hist:%s:%s" % (prod, ops[j]))
+    ctx.set_class("hist/%s/%s/%s-%s%s" % (prod, ops[j], kind, phase,
+                                         "" if burst else "-persistent"))
+    run = run_history(prod, ops, (k, kind, burst, phase))
+    if [_plain(o) for o in run.outs[:j]] != \
+            [_plain(o) for o in ref.outs[:j]]:
+        raise HarnessError("history %r is not deterministic: the steps "
+                           "before the fault differ" % (ops,))
+    later = [i for i in range(j + 1, len(ops))
+             if run.spans[i][1] > run.spans[i][0]]
+    if later:
+        ctx.nontrivial()
+    what = "history %r, %s x%s (%s) at command %d of step %d (%s)" % (
+        ops, kind, burst or "persistent", phase, p, j, (target or b"").hex()[:44])
+    # (a) every step - the faulted one and all later ones - ends as documented
+    for i in range(j, len(ops)):
+        if run.outs[i][0] == "other":
+            ctx.set_class("hist/%s/%s-after-%s" % (prod, ops[i], ops[j])
+                          if i > j else "hist/%s/%s" % (prod, ops[j]))
+            raise unexpected(
+                run.outs[i][1], "raw-or-unrelated-exception",
+                detail="%s: step %d (%s), is_authenticated=%r" % (
+                    what, i, ops[i], run.authed))
+    nonidem = phase == "rsp" and _is_mac_write(target)
+    if burst and burst <= 2:
+        ctx.label("hist:burst-below-budget")
+        # (b) survived: the whole history is the fault-free one
+        if run.outs[j][0] == "tce" and nonidem:
+            ctx.label("hist:mac-write-repeated-after-lost-response")
+        else:
+            for i in range(j, len(ops)):
+                if _plain(run.outs[i]) != _plain(ref.outs[i]):
+                    raise Violation(
+                        "transient-error-not-absorbed" if i == j and
+                        run.outs[i][0] == "tce" else
+                        "result-differs-from-fault-free",
+                        "%s: step %d (%s) gave %r, fault-free %r" % (
+                            what, i, ops[i], _plain(run.outs[i]),
+                            _plain(ref.outs[i])))
+            if run.mem != ref.mem:
+                raise Violation("memory-differs-from-fault-free", what)
+            if not nonidem and _answered_seq(run.xlog) != \
+                    _answered_seq(ref.xlog):
+                raise Violation("answered-command-sent-again", what)
+    else:
+        ctx.label("hist:burst-at-or-over-budget" if burst
+                  else "hist:persistent")
+        o = run.outs[j]
+        if not burst and o[0] == "tce" and o[1] != ERRNO[kind]:
+            # (c)
+            raise Violation("reason-code-mismatch",
+                            "%s reported as %r (errno %d)" % (what, o[2], o[1]))
+        if burst:
+            # steps that start after the burst is over run undisturbed: the
+            # tag still holds PW, so the documented result of authenticate
+            # is True for PW and False for another key
+            for i in later:
+                if run.spans[i][0] < k + burst or ops[i] not in (
+                        "auth", "auth-wrong"):
+                    continue
+                want = ("ok", ops[i] == "auth")
+                if _plain(run.outs[i]) != want:
+                    raise Violation(
+                        "undisturbed-authenticate-wrong-result",
+                        "%s: step %d (%s) gave %r" % (
+                            what, i, ops[i], _plain(run.outs[i])))
+        if burst and ops[j] in ("auth", "auth-wrong", "changed", "rmac",
+                                "rplain", "present"):
+            # (d) the failed operation does not write to the NDEF area, so an
+            # NDEF re-read that starts after the burst is over finds the tag
+            # content of the fault-free run and must report it: a failed
+            # authenticate must not leave the object unable to read
+            for i in later:
+                if run.spans[i][0] < k + burst or ops[i] != "changed":
+                    continue
+                if _plain(run.outs[i]) != _plain(ref.outs[i]):
+                    raise Violation(
+                        "undisturbed-ndef-read-differs",
+                        "%s: step %d (%s) gave %r, fault-free %r, "
+                        "is_authenticated=%r" % (
+                            what, i, ops[i], _plain(run.outs[i]),
+                            _plain(ref.outs[i]), run.authed))
+    # (e) bounded effort
+    if not burst and len(run.xlog) > k + 3 * max(len(ref.xlog), 4) + 20:
+        raise Violation("excessive-retries", what)
+    ctx.label("hist:faulted-step-" + run.outs[j][0])
+    for i in later:
+        ctx.label("hist:later-step-" + run.outs[i][0])
+
+
+def enum_histories(tier, seed):
+    quick = tier == "quick"
+    firsts = [[], ["auth"], ["auth-wrong"], ["write"]]
+    hit = ["auth", "auth-wrong", "changed", "write", "rmac", "wplain", "wmac",
+           "present"]
+    follows = ["changed", "auth", "write"]
+    bursts = (2, 3) if quick else BURSTS
+    if not quick:
+        firsts += [["changed"], ["auth", "changed"], ["auth", "write"],
+                   ["auth-wrong", "auth"]]
+        hit += ["rplain"]
+        follows += ["rmac", "wmac"]
+    count = 0
+    for prod in ("lite", "lites"):
+        for first in firsts:
+            for op in hit:
+                try:
+                    ref = run_history(prod, first + [op], None)
+                except Violation:
+                    continue
+                a, b = ref.spans[len(first)]
+                for follow in follows:
+                    for p in range(b - a):
+                        for burst in bursts:
+                            for phase in PHASES:
+                                count += 1
+                                # quick: the error kind rotates instead of
+                                # multiplying (it only selects the errno)
+                                for kind in ([KINDS[(count + seed) % 3]]
+                                             if quick or burst in (1, 4)
+                                             else KINDS):
+                                    yield {"prod": prod,
+                                           "ops": first + [op, follow],
+                                           "fault": [len(first), p, kind,
+                                                     burst, phase]}
+
+
+def gen_history(tier):
+    weighted = ["auth"] * 4 + ["auth-wrong"] * 2 + ["changed"] * 3 + \
+        ["ndef", "write", "write", "write-long", "rmac", "rmac", "rplain",
+         "wplain", "wmac", "present"]
+
+    @st.composite
+    def s(draw):
+        n = draw(st.integers(2, 7))
+        ops = [draw(st.sampled_from(weighted)) for _ in range(n)]
+        # mostly not the last step: what follows the fault is the point
+        j = draw(st.one_of(st.integers(0, n - 2), st.integers(0, n - 2),
+                           st.integers(0, n - 2), st.just(n - 1)))
+        return {"prod": draw(st.sampled_from(["lite", "lites"])),
+                "ops": ops, "pmod": True,
+                "fault": [j,
+                          draw(st.one_of(st.integers(0, 5),
+                                         st.integers(0, 1000))),
+                          draw(st.sampled_from(KINDS)),
+                          draw(st.sampled_from([1, 2, 3, 3, 4, 4, 0])),
+                          draw(st.sampled_from(PHASES))]}
+    return s()
+
+
+
 LEGS = [
     Leg("enum", run=run, enum=enum_faults, exhaustive=True, shards_quick=12,
         shards_thorough=16,
@@ -468,4 +809,41 @@ LEGS = [
         shards_quick=4, shards_thorough=16, nt_floor=0.02,
         rule="generated layouts (C01 strategies, bounded size) x {ndef read, "
              "write, presence check} x generated fault; non-trivial as above."),
+    Leg("felica_hist_enum", run=lambda case, ctx: check_history(case, ctx),
+        enum=enum_histories, exhaustive=True, shards_quick=12,
+        shards_thorough=16,
+        rule="histories on ONE FeliCa Lite / Lite-S tag object (card key = "
+             "the password, NDEF message present): [nothing | authenticate | "
+             "authenticate(wrong key) | NDEF write (thorough: also NDEF "
+             "re-read and three two-step prefixes)] then a faulted operation "
+             "out of {authenticate right/wrong key, NDEF re-read "
+             "(has_changed), NDEF write, read_with_mac, write_without_mac, "
+             "write_with_mac, presence check (thorough: also "
+             "read_without_mac)} with the error burst at EVERY "
+             "command position x burst {2,3} x {command lost, response "
+             "lost} with the error kind rotating (thorough: burst "
+             "1,2,3,4,persistent, every kind for 2,3,persistent), then one "
+             "more operation {NDEF re-read, authenticate, NDEF write} "
+             "(thorough: also read_with_mac, write_with_mac).  Oracles: "
+             "every step from the faulted one on "
+             "returns or raises TagCommandError (RuntimeError only from the "
+             "MAC methods of a never authenticated object, as documented); "
+             "burst below the budget: all results, the tag memory and the "
+             "sequence of answered commands equal the fault-free history "
+             "(a Lite-S write with MAC whose response was lost may fail); "
+             "persistent: matching reason code; an authenticate that starts "
+             "after the burst gives True for the card key and False for "
+             "another key.  non-trivial = an operation after the faulted one "
+             "exchanged commands with the tag."),
+    Leg("felica_hist", run=lambda case, ctx: check_history(case, ctx),
+        gen=gen_history, quick=500, thorough=12000, shards_quick=6,
+        shards_thorough=16, nt_floor=0.3,
+        rule="generated histories of 2-7 operations on one FeliCa Lite / "
+             "Lite-S tag object out of {authenticate right/wrong key, tag.ndef "
+             "(cached), NDEF re-read, NDEF write short/long, read_with_mac, "
+             "read_without_mac, write_without_mac, write_with_mac, presence "
+             "check}; one error burst (kind x length {1,2,3,4,persistent} x "
+             "command/response lost) at a generated command position of a "
+             "generated operation; oracles and non-trivial rule as in "
+             "felica_hist_enum."),
 ]
